@@ -57,6 +57,7 @@ def jobs(tier, seed, report):
     # leading zeros and its scientific form
     tiny = [8 * 10 ** 9, 3 * 10 ** 7, 7 * 10 ** 15]
     tc = [(2, 6), (3, 12), (1, 1), (6, 8)]
+    if tier == 'quick': tiny = tiny[:2]       # 7*10^15 costs minutes of solver time: thorough only
     for i, d in enumerate(tiny):
         for (l, e) in (tc[i % 2::2] if tier == 'quick' else tc):
             js.append({'name': f'tiny-d{d}-l{l}-e{e}', 'd': d, 'limit': l, 'explimit': e, 'K': 1})
